@@ -48,6 +48,7 @@ package jsonapi
 //@ loop 0 invariant attrs-only: forall a string :: a in res.Type.Attrs ==> visited(a) && a in typ.Attrs
 //@ loop 0 invariant no-rels: forall r string :: !(r in res.Type.Rels)
 //@ loop 0 invariant typed: upTyped(res)
+//@ loop 0 invariant data-only-fields: res.data != nil ==> (forall k string :: k in res.data ==> srIsField(res, k))
 //@ loop 1 invariant frame: unchanged(heap[Type]) && unchanged(heap[Schema]) && unchanged(maps[map[string]Attr]) && unchanged(maps[map[string]Rel]) && unchanged(heap[string]) && unchanged(heap[uint8]) && unchanged(heap[SoftResource]) && unchanged(maps[map[string]any])
 //@ loop 1 invariant shape: res != nil && fresh(res) && res.Type == &newType && fresh(res.Type) && res.Type.Name == typ.Name && res.id == rsk_id(old(text(data))) && res.Type.NewFunc == nil
 //@ loop 1 invariant shape-wf: attrsWf(res.Type.Attrs) && relsWf(res.Type.Rels) && fieldsDisjoint(*res.Type)
@@ -57,6 +58,7 @@ package jsonapi
 //@ loop 1 invariant rels-so-far: forall r string :: visited(r) && rsk_relData(old(text(data)), r) != "" ==> r in res.Type.Rels && res.Type.Rels[r] == typ.Rels[r]
 //@ loop 1 invariant rels-only: forall r string :: r in res.Type.Rels ==> visited(r) && r in typ.Rels && rsk_relData(old(text(data)), r) != ""
 //@ loop 1 invariant typed: upTyped(res)
+//@ loop 1 invariant data-only-fields: res.data != nil ==> (forall k string :: k in res.data ==> srIsField(res, k))
 //@ loop 2 invariant ids: fresh(ids) && len(ids) == len(idens) && unchanged(heap[string])
 
 //@ func UnmarshalIdentifier
@@ -75,9 +77,18 @@ package jsonapi
 //@ loop 0 invariant idens: fresh(idens) && len(idens) == len(raw) && raw == pre(raw) && unchanged(heap[Identifier]) && unchanged(heap[string]) && unchanged(heap[Type]) && unchanged(heap[Schema])
 //@ loop 0 invariant done: schema != nil ==> (forall k int :: 0 <= k && k <= $idx ==> hasType(schema, idens[k].Type) && idens[k].ID != "")
 //@ func UnmarshalPartialResource+
-//@ use SoftResource.Set: keep-id checked fresh-data fresh-maps new-maps-empty typed-attrs typed-rels
+//@ use SoftResource.Set: keep-id checked fresh-data fresh-maps new-maps-empty typed-attrs typed-rels only-fields
 //@ use Type.AddAttr: accept added others rest same-map fresh-map wf disjoint unchanged-on-error
 //@ use Type.AddRel: accept added others rest same-map fresh-map wf disjoint unchanged-on-error
 //@ assert before Set#0 attr-added: attr.Name == a && a in res.Type.Attrs && res.Type.Attrs[a] == typ.Attrs[a]
 //@ assert before Set#1 rel-added: rel.FromName == r && r in res.Type.Rels && res.Type.Rels[r] == typ.Rels[r] && !(r in res.Type.Attrs)
 //@ assert before Set#2 rel-added: rel.FromName == r && r in res.Type.Rels && res.Type.Rels[r] == typ.Rels[r] && !(r in res.Type.Attrs)
+//@ assert before Set#1 frame-after-addrel: unchanged(maps[map[string]Rel])
+//@ assert before Set#2 frame-after-addrel: unchanged(maps[map[string]Rel])
+//@ assert before Set#0 typed-before-set: res.data != nil ==> srTyped(res)
+//@ assert before Set#1 typed-before-set: res.data != nil ==> srTyped(res)
+//@ assert before Set#2 typed-before-set: res.data != nil ==> srTyped(res)
+//@ assert before Set#1 others-kept: forall r2 string :: r2 != r && r2 in res.Type.Rels ==> visited#1(r2) && r2 in typ.Rels && res.Type.Rels[r2] == typ.Rels[r2]
+//@ assert before Set#2 others-kept: forall r2 string :: r2 != r && r2 in res.Type.Rels ==> visited#1(r2) && r2 in typ.Rels && res.Type.Rels[r2] == typ.Rels[r2]
+//@ assert before Set#1 data-fields: res.data != nil ==> (forall k string :: k in res.data ==> srIsField(res, k))
+//@ assert before Set#2 data-fields: res.data != nil ==> (forall k string :: k in res.data ==> srIsField(res, k))
